@@ -27,6 +27,8 @@ func (c *countFS) ReadFile(name string) ([]byte, error) {
 }
 func (c *countFS) Stat(name string) (fs.FileInfo, error) { return c.m.Stat(name) }
 
+var c15Toggles = toggleElems("odd", "v", "v", "none")
+
 var c15Files = []string{"page.vuego", "comp.vuego", "layouts/lay.vuego"}
 
 // in the default-layout scenario the page names no layout and file 2 is layouts/base.vuego
@@ -43,11 +45,12 @@ func c15Content(f, cid int, valid, layoutScenario bool) string {
 	}
 	switch f {
 	case 0:
-		fm := fmt.Sprintf("---\nv: %d\n", cid)
+		fm := fmt.Sprintf("---\nv: %d\nodd: %v\n", cid, cid%2 == 1)
 		if layoutScenario {
 			fm += "layout: lay\n"
 		}
-		body := fmt.Sprintf("<p>P%d v={{ v }}</p><template include=\"comp.vuego\"></template>", cid)
+		// elements whose evaluation writes attributes, driven by a front-matter value that changes from version to version
+		body := fmt.Sprintf("<p>P%d v={{ v }}</p><template include=\"comp.vuego\"></template>", cid) + c15Toggles
 		if layoutScenario { // a named slot handed to the layout: its nodes must not be shared with the cache
 			body += fmt.Sprintf("<template #side><em>S%d</em></template>", cid)
 		}
@@ -55,7 +58,7 @@ func c15Content(f, cid int, valid, layoutScenario bool) string {
 	case 1:
 		return fmt.Sprintf("<i>C%d</i>", cid)
 	default:
-		return fmt.Sprintf("<main><b>L%d</b><aside><slot name=\"side\"></slot><hr></aside><div v-html=\"content\"></div></main>", cid)
+		return fmt.Sprintf("<main><b>L%d</b><aside><slot name=\"side\"></slot><hr></aside><div v-html=\"content\"></div></main>", cid) + c15Toggles
 	}
 }
 
